@@ -149,12 +149,15 @@ def check(ctx):
     fo = ctx.fn(f'{TR}.occupancy')
     r, s0, s1 = results[(TR, 'occupancy')]
     div = None
-    for n in ast.walk(fo.node):
-        if isinstance(n, ast.BinOp) and isinstance(n.op, ast.Div):
-            v = it.value_of(n)
-            l, rr = it.value_of(n.left), it.value_of(n.right)
-            if l is not None and l.counts_of is not None:
-                div = (n, l, rr)
+    from .C04 import functions_under
+    from .geo import _helper_like
+    for f_ in [fo] + [x for x in functions_under(it, fo.qualname, ctx.p) if x is not fo and _helper_like(x.qualname)]:
+        for n in ast.walk(f_.node):
+            if isinstance(n, ast.BinOp) and isinstance(n.op, ast.Div):
+                v = it.value_of(n)
+                l, rr = it.value_of(n.left), it.value_of(n.right)
+                if l is not None and l.counts_of is not None and div is None:
+                    div = (n, l, rr)
     if div is None:
         ctx.ob('R3', fo, 'counts / frames', None, 'normalisation of the state counts not recognised')
     else:
@@ -182,6 +185,9 @@ def check(ctx):
     for n in divs:
         rt = ita.sx(n.right)
         is_sum = isinstance(n.left, ast.Call) and norm_text(n.left.func) == 'sum' and len(n.left.args) == 1
+        lv_ = ita.cur(n.left)
+        if not is_sum and lv_ is not None and lv_.summed:
+            is_sum = True  # an entry of a per-label accumulation (d[label] += x)
         ok = rt == 'self.n_floating' and is_sum
         ctx.ob('R3', fa, n, True if ok else (False if is_sum else None),
                'summed site occupancies divided by the number of diffusing atoms' if ok else f'divided by {rt}')
